@@ -438,6 +438,11 @@ pub fn bit_kinds() -> Vec<(u32, K)> {
         (1, K::Concat),
         (1, K::MkTuple),
         (1, K::TupleGet),
+        (2, K::MkVector),
+        (1, K::Repeat),
+        (1, K::VectorGet),
+        (1, K::A2V),
+        (1, K::V2A),
         (1, K::Reshape),
         (1, K::Call),
     ]
@@ -459,6 +464,10 @@ pub fn byte_kinds() -> Vec<(u32, K)> {
         (1, K::Get),
         (2, K::ApplyPermPublic),
         (1, K::SortSmall),
+        (2, K::MkVector),
+        (1, K::MkTuple),
+        (1, K::Repeat),
+        (1, K::A2V),
     ]
 }
 
